@@ -208,6 +208,7 @@ def ref_hcm(turns):
 # ------------------------------------------------------------------ C01
 class C01(Prop):
     ID = "C01"
+    PARALLEL = 8
     SOURCES = SOURCES
     NEEDS_EXT = True
     LEAN_MODULES = ["Proofs.C01"]
@@ -235,7 +236,7 @@ class C01(Prop):
         self.exhaustive = False
 
     def generate(self, rng, tier):
-        maxlen = 5 if tier == "quick" else 7
+        maxlen = 5 if tier == "quick" else 6   # length 7 x all partitions is 3.6 M cases (30 min): beyond "several minutes"
         alphabet = [0, 1, 2, 3]
         self.exhaustive = True
         self.stats["exhaustive_scope"] = f"all signals over {alphabet} of length 1..{maxlen} x all partitions x 3 detectors"
@@ -247,10 +248,10 @@ class C01(Prop):
                         pass
                     for det in DETS:
                         yield {"det": det, "signal": list(sig), "lens": lens, "mode": "exh"}
-        nrand = 600 if tier == "quick" else 6000
+        nrand = 600 if tier == "quick" else 20000
         for _ in range(nrand):
             mode = rng.choice(MODES)
-            n = rng.choice([1, 2, 3, 5, 8, 13, 30, 80, 200, 400]) if tier != "quick" else rng.choice([1, 2, 3, 5, 8, 13, 30, 80, 200])
+            n = rng.choice([1, 2, 3, 5, 7, 8, 13, 30, 80, 200, 400]) if tier != "quick" else rng.choice([1, 2, 3, 5, 8, 13, 30, 80, 200])
             sig = random_signal(rng, n, mode)
             lens = random_cuts(rng, n)
             det = rng.choice(DETS)
@@ -336,6 +337,7 @@ def shrink_signal_case(case, still_fails):
 # ------------------------------------------------------------------ C02
 class C02(Prop):
     ID = "C02"
+    PARALLEL = 8
     SOURCES = SOURCES
     NEEDS_EXT = True
     LEAN_MODULES = ["Proofs.C02"]
